@@ -50,6 +50,8 @@ for name in names:
     meta.setdefault("breaks_property", r["property"])
     meta["what_i_ran"] = "selftest/confirm_seeded.sh (patch applies to /repo HEAD, builds, existing suite passes with it, demo_test.go passes without it and fails with it); selftest/sweep.py (bin/check %s on a scratch worktree with the patch applied)" % r["property"]
     meta["needs_to_manifest"] = meta.get("needs_to_manifest", "see NOTES.md")
+    if meta.get("superseded") and r.get("outcome") == "MISSED":
+        r["outcome"] = "SUPERSEDED (not a violation on HEAD, see 'superseded')"
     meta.setdefault("runs", {})[tier] = r
     json.dump(meta, open(mp, "w"), indent=1)
     print("%-6s %-12s exit=%s %ss %s" % (name, r.get("outcome"), r.get("exit"), r.get("wall_s"), ",".join(r.get("violation_sigs", []))[:150]), flush=True)
